@@ -18,7 +18,7 @@ import (
 
 // ConnSpec: the state a connection is brought into before Close is called.
 type ConnSpec struct {
-	State string `json:"state"` // idle | midmsg | admitted | registered | in-stmt | in-exec | in-parser | pipelined
+	State string `json:"state"` // idle | midbatch | midmsg | admitted | registered | in-stmt | in-exec | in-parser | pipelined
 }
 
 // CloserSpec: one Close caller and the point it is (cooperatively) held at.
@@ -187,6 +187,12 @@ func Run(c Case) (res core.Result) {
 		}
 		switch cs.State {
 		case "idle":
+		case "midbatch":
+			// half way through an extended-query series: Parse and Bind answered, no Sync yet; the rest
+			// of the series arrives after Close has returned and must not start anything
+			b := append(pgwire.Parse("", "select 1", nil), pgwire.Bind("", "", nil, nil, nil)...)
+			s.C.Send(b)
+			s.C.WaitIdle(grace * 4)
 		case "midmsg":
 			b := pgwire.Query("select 1")
 			s.C.Send(b[:7])
@@ -358,6 +364,11 @@ func Run(c Case) (res core.Result) {
 	}
 	// after Close returned: new traffic must not start any handler
 	for i := range c.Conns {
+		if c.Conns[i].State == "midbatch" {
+			b := append(pgwire.Execute("", 0), pgwire.Parse("late", "select 1", nil)...)
+			sess[i].C.Send(append(b, pgwire.Sync()...))
+			continue
+		}
 		sess[i].C.Send(pgwire.Query("select 1"))
 	}
 	time.Sleep(grace)
